@@ -35,7 +35,12 @@ fn cost_seq<const K: usize>(first_zero: Option<bool>) {
     if stride_representable(&vals[..]) {
         assert!(u == 0 && cap == 0, "C19: a stride-representable sequence occupies heap");
     }
-    cover!(stride_representable(&vals[..]), "whole sequence representable");
+    // reachability witnesses: with a non-zero first value everything spills and "representable" cannot happen
+    if first_zero == Some(false) {
+        cover!(u > 0, "spilled");
+    } else {
+        cover!(stride_representable(&vals[..]), "whole sequence representable");
+    }
     sym::forget(c);
 }
 
